@@ -96,11 +96,8 @@ func scalarReflectFromGo(schema *schema_j5pb.Field, value interface{}) (protoref
 		}
 
 		if numVal, ok := value.(json.Number); ok {
-			i64, err := numVal.Int64()
-			if err != nil {
-				return pv, err
-			}
-			value = i64
+			// parsed per format below, so that the full uint64 range is accepted
+			value = numVal.String()
 		}
 
 		switch st.Integer.Format {
